@@ -179,6 +179,8 @@ impl Monitor for C06 {
 				let cur_mode = Arc::new(AtomicUsize::new(0));
 				let cur_stats: Arc<std::sync::Mutex<Option<Arc<Stats>>>> = Arc::new(std::sync::Mutex::new(None));
 				let (b2, cm2, cs2, dd) = (bytes.clone(), cur_mode.clone(), cur_stats.clone(), dbg_dir.clone());
+				let control = k % 16 == 15 && ctx.only_sub.is_none();
+				let pristine = Arc::new(seed.bytes.clone());
 				let progress_stats = cur_stats.clone();
 				let progress_mode = cur_mode.clone();
 				let w = watched(
@@ -191,6 +193,17 @@ impl Monitor for C06 {
 							cm2.store(mode, Relaxed);
 							let (o, _) = run_mode(&b2, mode, None, &dd, |st| *cs2.lock().unwrap() = Some(st));
 							res.push((mode, o));
+						}
+						// history control ON THIS THREAD (thread-local state of the failed parses lives
+						// here): the pristine seed must still read to the same game right afterwards
+						if control {
+							let c = match common::slp_read(&pristine, false, false).and_then(|g| common::slp_write(&g)) {
+								Ok(w) if w == *pristine => Outcome::Ok,
+								Ok(_) => Outcome::Err("DIFFERENT".into()),
+								Err(Fail::Err(e)) => Outcome::Err(e),
+								Err(Fail::Panic(p)) => Outcome::Panic(p.loc, p.msg),
+							};
+							res.push((usize::MAX, c));
 						}
 						res
 					},
@@ -218,6 +231,16 @@ impl Monitor for C06 {
 				};
 				for (mode, o) in results {
 					out.evals += 1;
+					if mode == usize::MAX {
+						match o {
+							Outcome::Ok => out.count("pristine_seed_identical_right_after_hostile_input", 1),
+							Outcome::Err(e) if e == "DIFFERENT" => out.violate_sub(k, "valid-input-read-differently-after-hostile-input", format!("seed [{}] read right after [{}] on the same thread no longer serialises to itself: state of the failed parse leaked into the next one", seed.name, what), Some(&bytes)),
+							Outcome::Err(e) => out.violate_sub(k, format!("valid-input-rejected-after-hostile-input;{}", norm_msg(&e)), format!("seed [{}] read right after [{}] on the same thread: {}", seed.name, what, e), Some(&bytes)),
+							Outcome::Panic(loc, msg) => out.violate_sub(k, format!("panic;{};{}", norm_loc(&loc), norm_msg(&msg)), format!("seed [{}] pristine after [{}]: panic at {}: {}", seed.name, what, loc, msg), Some(&bytes)),
+							Outcome::Spin => {}
+						}
+						continue;
+					}
 					let oc = match &o {
 						Outcome::Ok => "ok",
 						Outcome::Err(_) => "err",
@@ -238,16 +261,6 @@ impl Monitor for C06 {
 				}
 				if k == 0 && idx % 29 == 0 {
 					out.sample = Some(json!({"case": idx, "seed": seed.name, "operator": op, "mutation": what, "input_bytes": bytes.len()}));
-				}
-				// history control with content comparison, right after a hostile input (a stale
-				// buffer may heal again later): the pristine seed must still read to the same game
-				if k % 16 == 15 {
-					out.evals += 1;
-					match common::slp_read(&seed.bytes, false, false).and_then(|g| common::slp_write(&g)) {
-						Ok(w) if w == seed.bytes => out.count("pristine_seed_identical_right_after_hostile_input", 1),
-						Ok(_) => out.violate_sub(k, "valid-input-read-differently-after-hostile-input", format!("seed [{}] read right after [{}] no longer serialises to itself: state of the failed parse leaked into the next one", seed.name, what), Some(&bytes)),
-						Err(f) => out.violate_sub(k, format!("valid-input-rejected-after-hostile-input;{}", f.sig()), format!("seed [{}] read right after [{}]: {}", seed.name, what, f.text()), Some(&bytes)),
-					}
 				}
 			}
 			// history control: after hundreds of hostile inputs in this process the pristine seed must
